@@ -15,6 +15,8 @@ C13 — line-protocol driver of the drop model (core only).
   tagvals <mst> <pred>                         → tv k=v+v;k=v
   card <mst> <pred|*>                          → n <k>     (`*` = no condition)
   tvcard <mst> <pred>                          → n <k>     (distinct tag values of the keys)
+  rowsync <mst> <key> <v=entry,entry|v=…>      → ok | err rowsync   (the tag→tsids rows of the key, read off the index)
+  tagvalsk <mst> <key,key> <pred>              → tv k=v+v;k=v        (SHOW TAG VALUES by the row scan over the synced rows)
   cat <dbcreate|dbmark|dbdrop|rpcreate|rpmark|rpdrop|mcreate n|mmark n|mdrop p|resolve n|addfield n f|fieldkeys n|msts> → ok | name p | fk k,k | msts n,n | err e
   purge                                        → ok | err parts-in-merge
   imerge | mbegin <entry,entry…>               → ok <n>    (the parts that hold these series entries are merged / taken by a merger; n = parts taken)
@@ -33,6 +35,7 @@ pred: RPN over `;` — `-` (none), eq:k:v, neq:k:v, re:k:a+b, nre:k:a+b, and, or
 import OG.C13.Model
 import OG.C13.Catalog
 import OG.C13.Store
+import OG.C13.Rows
 
 namespace OG.C13
 open OG.C02
@@ -42,6 +45,7 @@ structure DSt where
   keys : List (Nat × String × Tags)
   cat : Cat
   store : Store.St := Store.St.init
+  rows : List ((String × String) × List TRow) := []   -- (measurement, tag key) ↦ the rows last read off the index
 
 def DSt.univ (d : DSt) : Univ where
   mst := fun k => match d.keys.lookup k with
@@ -277,7 +281,7 @@ def step (d : DSt) (line : String) : DSt × String :=
   | some r => r
   | none =>
   match toks with
-  | ["open", _] => (⟨St.init 1, [], Cat.init, d.store⟩, "ok")
+  | ["open", _] => (⟨St.init 1, [], Cat.init, d.store, []⟩, "ok")
   | ["parts", n] =>
     match n.toNat? with
     | some k => if k = 0 then (d, "bad-op") else ({ d with st := { st with lay := { st.lay with nParts := k } } }, "ok")
@@ -342,6 +346,30 @@ def step (d : DSt) (line : String) : DSt × String :=
     | some p => (d, "tv " ++ String.intercalate ";" ((st.tagVals U m ["host", "zone"] p).map fun (k, vs) =>
         k ++ "=" ++ String.intercalate "+" vs))
     | none => (d, "bad-op")
+  | ["rowsync", m, k, rs] =>
+    -- the tag→tsids rows of (m, k) as a table search of the real index sees them: value=entry,entry|value=…
+    let parsed : Option (List TRow) :=
+      if rs == "-" then some [] else
+      (rs.splitOn "|").mapM fun t =>
+        match t.splitOn "=" with
+        | [v, es] => (parseEntries st.idx.born es).map fun ids => (⟨v, ids⟩ : TRow)
+        | _ => none
+    match parsed with
+    | some rows =>
+      if st.rowsConsistent U m k rows then
+        ({ d with rows := ((m, k), rows) :: d.rows.filter (·.1 != (m, k)) }, "ok")
+      else (d, "err rowsync")
+    | none => (d, "err rowsync")
+  | ["tagvalsk", m, ks, p] =>
+    match parsePred p with
+    | some p =>
+      let keys := ks.splitOn ","
+      match keys.mapM fun k => (d.rows.lookup (m, k)).map fun rs => (k, rs) with
+      | some rows =>
+        (d, "tv " ++ String.intercalate ";" ((st.tagValsRows U m p rows).map fun (k, vs) =>
+          k ++ "=" ++ String.intercalate "+" vs))
+      | none => (d, "err norows")
+    | none => (d, "bad-op")
   | ["tvcard", m, p] =>
     match parsePred p with
     | some p => (d, "n " ++ toString (st.tagValCard U m ["host", "zone"] p))
@@ -362,6 +390,6 @@ partial def loop (h : IO.FS.Stream) (out : IO.FS.Stream) (d : DSt) : IO Unit := 
   loop h out d'
 
 def main : IO Unit := do
-  loop (← IO.getStdin) (← IO.getStdout) ⟨St.init 1, [], Cat.init, Store.St.init⟩
+  loop (← IO.getStdin) (← IO.getStdout) ⟨St.init 1, [], Cat.init, Store.St.init, []⟩
 
 end OG.C13
